@@ -16,7 +16,7 @@ def run(tier, seed, t0):
         if timed_out:
             return ("violated", f"{PID}/{(case.desc or {}).get('op','?')}/call-never-returned", "no answer: " + tail[-300:])
         return vlib.default_crash_policy(case, rc, timed_out, tail)
-    n = 66 * (6 if thorough else 2)
+    n = 144 * (4 if thorough else 1)
     cases = vlib.fan_out([os.path.join(d, "sys"), "nonblock", "--seed", str(seed)], n, engine="native real-libc", case_timeout=40, crash_policy=pol, jobs=16, shard=max(4, n // 32))
     io, lmax, grid = cs.io_cases(PID, seed, tier, "C18")
     for c in io:
